@@ -105,8 +105,7 @@ struct Snap {
 fn snap(w: &WalletH, slots: &[Uuid]) -> Snap {
 	let opts = ProjOpts {
 		slots: slots.to_vec(),
-		heights: false,
-	};
+		heights: false, canon_ids: false };
 	let p = project_wallet(w, &opts);
 	let txs = w
 		.txs()
